@@ -14,6 +14,7 @@ import (
 )
 
 type bigEnv struct {
+	phiBusy map[*ssa.Phi]bool
 	f     *ssa.Function
 	names map[ssa.Value]string // leaves (params, fields…)
 	cenv  *canonEnv
